@@ -21,6 +21,8 @@ RULE = ('poll scripts: first poll answers UPDATE v1, polls 2..3 each in {same ve
         'schedule with <= bound preemptions at line granularity in config/tracepoint_config.py, task, poll, TriggerHandler.new_config; '
         'non-trivial = at least two update tasks were pending together or a poll failed'
         ' ; poll actions also: response of an unknown type, conversion failure injected at the convert_response seam; two agents in one process (one after the other / side by side) built as deep.start() builds them')
+RULE_ADDED = "round 3: timer loop x interval {5, '5', 0, '0', -1}"
+RULE = RULE + ' ; ' + RULE_ADDED
 ASSUMPTIONS = ['the service answers NO_CHANGE iff the reported hash equals its current hash (server model)',
                'an unintelligible poll is a response object the client cannot read (the stub returns garbage); a single uninterpretable tracepoint is C11',
                'thread switches at source-line granularity in the listed modules and at every shim operation']
